@@ -1,20 +1,25 @@
 #!/usr/bin/env python3
 """Render seeded/MATRIX.txt (output of tools/run_seeded.sh -a) as the markdown table of DESIGN.md 12.6
-and print per-round counts. usage: tools/matrix_table.py [matrix-file]"""
+and print per-round counts. usage: tools/matrix_table.py [matrix-file ...]  (cells of later files override)"""
 import re
 import sys
 
-path = sys.argv[1] if len(sys.argv) > 1 else "/verif/seeded/MATRIX.txt"
-rows = []
-for line in open(path):
-    m = re.match(r"^(C\d\d-[a-z]\d): (.*)$", line.strip())
-    if not m:
-        continue
-    mid, rest = m.group(1), m.group(2)
-    cells = {}
-    for c in re.finditer(r"(C\d\d)=(\d+)(?:\[([^\]]*)\])?", rest):
-        cells[c.group(1)] = (int(c.group(2)), (c.group(3) or "").split(",") if c.group(3) else [])
-    rows.append((mid, cells))
+paths = sys.argv[1:] or ["/verif/seeded/MATRIX.txt"]
+merged = {}
+order = []
+for path in paths:
+    for line in open(path):
+        m = re.match(r"^(C\d\d-[a-z]\d): (.*)$", line.strip())
+        if not m:
+            continue
+        mid, rest = m.group(1), m.group(2)
+        if mid not in merged:
+            merged[mid] = {}
+            order.append(mid)
+        for c in re.finditer(r"(C\d\d)=(\d+)(?:\[([^\]]*)\])?", rest):
+            # later files override earlier cells
+            merged[mid][c.group(1)] = (int(c.group(2)), (c.group(3) or "").split(",") if c.group(3) else [])
+rows = [(mid, merged[mid]) for mid in sorted(order)]
 
 print("| change | own check (clauses) | other checks that also fail |")
 print("|---|---|---|")
